@@ -14,6 +14,11 @@ NS = {"LOG": LOG, "Predicate": Predicate, "dataclass": dataclass, "symbolic_func
 FUNS, PREDS = {}, {}
 
 
+@dataclass(eq=False)
+class Row:
+    cells: tuple = ()
+
+
 def body_src(n, prefix=""):
     terms = [f"{k} * {prefix}p{i}" for i, k in ((1, 1), (2, 2), (3, 3)) if i <= n]
     return "(" + " + ".join(terms) + ") % 3 != 0"
@@ -45,7 +50,23 @@ def get(n, ndef):
         if ndef == 0:
             src += (f"@symbolic_function\ndef w_{n}_{ndef}(p1, *rest, **options):\n    LOG.append(('w', (p1,) + rest))\n"
                     f"    return (p1 + sum((i + 2) * r for i, r in enumerate(rest))) % 3 != 0\n")
+        if ndef == 0 and n >= 2:
+            # one named parameter; the others travel as extra keywords through **options (absent = 0)
+            opt = ", ".join(f"options.get('p{i}', 0)" for i in range(2, n + 1))
+            body = "(p1 + " + " + ".join(f"{i} * options.get('p{i}', 0)" for i in range(2, n + 1)) + ") % 3 != 0"
+            src += (f"@symbolic_function\ndef k_{n}_{ndef}(p1, **options):\n    LOG.append(('k', (p1, {opt},)))\n    return {body}\n")
+            sbody = "(self.p1 + " + " + ".join(f"{i} * self.options.get('p{i}', 0)" for i in range(2, n + 1)) + ") % 3 != 0"
+            sopt = ", ".join(f"self.options.get('p{i}', 0)" for i in range(2, n + 1))
+            src += (f"class K_{n}_{ndef}(Predicate):\n    def __init__(self, p1, **options):\n        self.p1 = p1\n        self.options = options\n"
+                    f"    def __call__(self):\n        LOG.append(('K', (self.p1, {sopt},)))\n        return {sbody}\n")
+        # a predicate marked expensive (its arguments will be items of ONE object: x.cells[0], x.cells[1], ...)
+        src += (f"@dataclass(eq=False)\nclass E_{n}_{ndef}(Predicate):\n    is_expensive = True\n{fields}\n    def __call__(self):\n"
+                f"        LOG.append(('E', ({sargs},)))\n        return {body_src(n, 'self.')}\n")
         exec(src, NS)
+        if ndef == 0 and n >= 2:
+            FUNS[key + ("varkw",)] = NS[f"k_{n}_{ndef}"]
+            PREDS[key + ("varkw",)] = NS[f"K_{n}_{ndef}"]
+        PREDS[key + ("expensive",)] = NS[f"E_{n}_{ndef}"]
         FUNS[key + ("posonly",)] = NS[f"h_{n}_{ndef}"]
         if ndef == 0:
             FUNS[key + ("varargs",)] = NS[f"w_{n}_{ndef}"]
@@ -62,13 +83,18 @@ def handle(case):
     out = {}
     kinds = [("function", f), ("predicate", P), ("function_int", FUNS[(n, ndef, "int")])]
     style = case.get("style", "plain")
-    if style != "plain":
+    if style == "varkw":
+        kinds = [("function", FUNS[(n, ndef, style)]), ("predicate", PREDS[(n, ndef, style)])]
+    elif style != "plain":
         kinds = [("function", FUNS[(n, ndef, style)])]
     elif vs:
         # the same call as a later condition: every variable is already bound (by v >= 0) when the call is evaluated
         kinds += [("function_after_binding", f), ("predicate_after_binding", P)]
         # the number-valued function as an operand of a comparison: g(...) == 0
         kinds += [("function_int_equals_zero", FUNS[(n, ndef, "int")])]
+        if len(vs) >= 2:
+            # the variable arguments are items of ONE object: r.cells[0], r.cells[1], ... with r over every combination
+            kinds += [("predicate_expensive_items", PREDS[(n, ndef, "expensive")]), ("function_items", f)]
     if style == "plain" and n >= 2 and not (ndef >= 1 and ndef < 1):
         try:
             # the base predicate is used first (concretely), then the derived one with the call shape under test
@@ -79,6 +105,11 @@ def handle(case):
     for kind, target in kinds:
         V = {i: let(int, [0, 1, 2], name=f"v{i}") for i in vs}
         val = lambda i: V[i] if i in V else i
+        if kind.endswith("_items"):
+            rows = [Row(cells=tuple(c)) for c in itertools.product([0, 1, 2], repeat=len(vs))]
+            rv = let(Row, rows, name="r")
+            pos = {i: k for k, i in enumerate(sorted(vs))}
+            val = lambda i: rv.cells[pos[i]] if i in pos else i
         args = [val(i) for i in range(1, np_ + 1)]
         kwargs = {f"p{i}": val(i) for i in kw}
         del LOG[:]
@@ -97,6 +128,12 @@ def handle(case):
             else:
                 del LOG[:]
                 order = sorted(V)
+                if kind.endswith("_items"):
+                    q = an(entity(rv, r))
+                    o["solutions"] = sorted(list(x.cells) for x in q.evaluate())
+                    o["calls_at_evaluation"] = sorted([list(a) for (_, a) in LOG])
+                    out[kind] = o
+                    continue
                 if kind == "function_int_equals_zero":
                     r = (r == 0)
                 if kind.endswith("_after_binding"):
